@@ -94,7 +94,7 @@ def main(tier, seed, only=None):
         paths.append((pth, what))
     ev = {"property_id": "C18", "tier": tier, "seed": seed, "level": "exploration",
           "coverage": {"evaluations": len(jobs), "distinct_nontrivial": len({(j[1], j[2], j[3]) for j in jobs if j[2] >= 2}),
-                       "rule": "each evaluation is one process: T in {2,3,4,8,16} threads released by a barrier run generated sequences (once: %d fresh triggers; atomic: %d00 increments/decrements/CAS per thread; rng: %d well-bracketed sessions of create/StepR/StepR2/rekey/isvalid/nested create/close per thread; onexit: 8x as many concurrent utilOnExit registrations, all of which must run at exit; churn: 4x as many minimal sessions, so that the shared state is destroyed and re-created while other threads enter) with seeded yields; "
+                       "rule": "each evaluation is one process: T in {2,3,4,8,16} threads released by a barrier run generated sequences (once: %d fresh triggers; atomic: %d00 increments/decrements/CAS per thread; rng: %d well-bracketed sessions of create (no / delivering / failing / short additional source)/StepR/StepR2/rekey/isvalid/nested create/close per thread; onexit: 8x as many concurrent utilOnExit registrations, all of which must run at exit; churn: 4x as many minimal sessions, so that the shared state is destroyed and re-created while other threads enter) with seeded yields; "
                                "ThreadSanitizer (happens-before) + invariants are the oracle; every run has >= 2 overlapping threads, distinct by (scenario, T, seed)" % (rounds["once"], rounds["atomic"], rounds["rng"]),
                        "samples": samples, "generator_blocks_compared": blocks, "notes": notes + (["%d runs skipped after three stalls of their scenario" % skipped] if skipped else []), "exhaustive": False},
           "assumptions": ["ThreadSanitizer reports a race when both accesses occur in a run, without needing the losing interleaving; atomicity violations that are not data races need the bad schedule to happen - schedules are sampled, not enumerated",
